@@ -15,12 +15,12 @@ def gen_wait(rng, tier):
 
 SPEC = {
     "components": [
-        {"comp": "conc", "gen": gen_rpq, "oracle": G.rpq_oracle, "label": "rpq",
+        {"comp": "conc", "gen": gen_rpq, "oracle": G.rpq_oracle, "label": "rpq", "shrink": False,
          "nontrivial": lambda c, i: any(l.startswith("done(") and ":" in l for l in i), "dist": lambda cs: {"cases": len(cs)}},
         {"comp": "conc", "gen": gen_wait, "oracle": G.wait_oracle, "label": "notify-wait",
          "nontrivial": lambda c, i: any(l == "blocked" for l in i), "dist": lambda cs: {"cases": len(cs)}},
     ],
-    "search": lambda rng, tier: [("conc", gen_rpq(rng, tier), G.rpq_oracle), ("conc", gen_wait(rng, tier), G.wait_oracle)],
+    "search": lambda rng, tier: [("conc", gen_rpq(rng, tier), G.rpq_oracle, False), ("conc", gen_wait(rng, tier), G.wait_oracle)],
     "rule": "real ReadyPipeQueue under the deterministic turnstile scheduler: 1..3 pipes (capacity 1..3), one scripted producer per pipe "
             "mixing send / try_send / try_send_batch, 1..2 scripted consumers mixing pop / try_pop, ready list capacity >= pipes, "
             "random schedules at schedule-point granularity (5..150 grants), occasional deregistration, then a drain phase; oracle: "
